@@ -16,6 +16,7 @@ def _one(sc):
 
 
 def run(check):
+    design(check)
     consts = dict(NP=2, NS=2)
     cfg = os.path.join(check.tmp, 'simpyev.cfg')
     tlc.write_cfg(cfg, 'Spec', consts, invariants=['Emit'])
@@ -49,6 +50,32 @@ def run(check):
     runs = [(sc, t, 1) for sc, t in zip(scenarios, traces)]
     check.programs += len(runs)
     usimrun.judge(check, OBS, runs)
+    # second verdict: every trace of a stand-alone run must be a behaviour of the operational specification SimPyOp
+    alone = [r for r in runs if not r[0].get('embedded')]
+    for idx, clause, pos in check.validate('SimPyOpT', [r[1] for r in alone], label='op', spec='SpecT', consts={'NP': 1, 'NS': 1}):
+        check.report(clause, alone[idx][0], alone[idx][1], pos)
+    check.extra['traces_validated_against_SimPyOp'] = len(alone)
+
+
+def design(check):
+    """design level: the operational specification of the event / process layer with a most general script"""
+    consts = dict(NP=2, NS=2)
+    invs = ['CallbackOnce', 'NotPastUntil', 'QuiescentEnd']
+    props = ['TriggerOnce', 'NothingLeftBehind', 'ClockMonotone']
+    cfg = os.path.join(check.tmp, 'simpyop.cfg')
+    tlc.write_cfg(cfg, 'Spec', consts, invariants=invs, properties=props)
+    with open(cfg) as fh:
+        text = fh.read()
+    with open(cfg, 'w') as fh:
+        fh.write('\n'.join(l for l in text.splitlines()
+                           if not any(l.strip().startswith(k + ' =') for k in tlc.DEFAULTS)) + '\n')
+    r = tlc.run_tlc('SimPyOp', cfg, workers=12)
+    if r.errors or r.violated:
+        raise core.MachineryError('SimPyOp.tla: %s' % (r.violated or r.errors)[:3])
+    check.states += r.distinct
+    check.transitions += r.generated
+    check.tlc_runs.append({'label': 'simpyop', 'module': 'SimPyOp', 'constants': consts, 'invariants': invs, 'properties': props,
+                           'distinct': r.distinct, 'generated': r.generated, 'complete': r.complete, 'wall_s': round(r.wall, 1)})
 
 
 def replay(path):
